@@ -32,6 +32,7 @@ type Obligation struct {
 	SmtSize int
 	Output  string
 	Inlined bool
+	Candidate bool // sat only on the ground-instantiated query
 }
 
 type Assumption struct {
@@ -67,6 +68,7 @@ type Tr struct {
 	localIdx  map[*ssa.Function]map[string][]localRef
 	specErrs  []string
 	topParams map[string]EVal
+	splitCases [][]*Term
 }
 
 type retInfo struct {
